@@ -34,10 +34,10 @@ SPEC = dict(
         "trust messages SENT by the manual makeTrustDecisions are counted but not modelled (C18 is about received messages)",
         "held-back decisions are filed under the sender's key ID alone (the store keeps no sender account): 'that key later becomes authenticated' is "
         "read as 'authenticate() runs on a batch that contains a key with that ID and has the decision in scope (an own key or a key of the "
-        "decision's owner in the batch)'; when one key ID is used with two accounts a held decision can be thrown away unapplied - by a distrust of "
-        "that ID for another account or by a fired decision with the same verdict for the same key ID of another owner (finding "
-        "C18:cross-account-discard, theorems C18_defect_cross_account_discard_by_*), or overwritten / fired through a sender key ID that two "
-        "accounts' devices really share (statistics only: a sender key ID cannot be claimed) - never outside the sender's scope",
+        "decision's owner in the batch)'; when one key ID is used with two accounts a held decision can be thrown away unapplied by a fired decision with "
+        "the same verdict for the same key ID of another owner (open finding C18:cross-account-discard, theorem "
+        "C18_defect_cross_account_discard_by_supersession), or overwritten / fired / discarded through a sender key ID that two accounts' devices "
+        "really share and within the other account's scope (statistics only: a sender key ID cannot be claimed) - never outside the sender's scope",
         "ATM has no ordering or replay protection of its own: a replayed trust message re-asserts its verdicts over decisions made since (counted; "
         "idempotent when the first copy released no held-back decision); the end-to-end encryption layer is assumed to reject replays",
     ],
@@ -45,12 +45,12 @@ SPEC = dict(
                "key was Authenticated (ManuallyTrusted is not enough) and only within scope (own device: any account, contact: own keys), cascades of fired "
                "held-back decisions included; decisions of unauthenticated senders are held back exactly in scope and change no level; a held entry is "
                "applied only if / if (or superseded) authenticate() runs on its sender key ID with the entry in scope, applied decisions take effect, distrust "
-               "wins within a step; distrust() discards what is held under its key IDs, for ever; a held entry leaves the store only by firing, "
+               "wins within a step; distrust() discards what is held under its key IDs and in its scope, for ever; a held entry leaves the store only by firing, "
                "supersession, distrust of its sender key ID, or an overwritten verdict; TOAKAFA; which levels ATM can produce; termination of the "
                "authenticate/postponed recursion; the cascade depends only on SETS (order-independent inside a step; order across steps and inside a held "
                "message documented by examples); encryption namespaces independent. NOT proved because false on the code: a contact's message makes only "
-               "held decisions about its own account disappear (two negative theorems with concrete histories, finding C18:cross-account-discard; partial "
-               "version proved). Model (tree with the scope re-check of a532e12) tied to the code by exhaustive+random correspondence.",
+               "held decisions about its own account disappear (negative theorem with a concrete history, finding C18:cross-account-discard; partial "
+               "version proved: the only exception is supersession by verdict+key ID). Model (tree with the scope re-checks of a532e12 and 845d75c) tied to the code by exhaustive+random correspondence.",
     level_note="Proved about the hand-written model; model-to-code tie is differential (exhaustive to a depth, sampled beyond). Firing is keyed by sender key "
                "id only, as in the code and the XEP: 'that key becomes authenticated' is read as 'authenticate() runs on a key with that id'.",
     design_ref="5.18",
